@@ -11,10 +11,10 @@ namespace QR.Pinned
 def fp_C01 : Nat := 0x56ded01e9bd4db7
 def fp_C02 : Nat := 0xc2c07b3f87c66ad
 def fp_C03 : Nat := 0x7ea03f23e59dfb9
-def fp_C04 : Nat := 0x7fb4d713af62556
-def fp_C05 : Nat := 0x7fb4d713af62556
+def fp_C04 : Nat := 0xa493523fd1bf37a
+def fp_C05 : Nat := 0xa493523fd1bf37a
 def fp_C06 : Nat := 0xa43580db018a14e
-def fp_C07 : Nat := 0x954bb2332877f8c
+def fp_C07 : Nat := 0x8eee846ebe1faf3
 def fp_C08 : Nat := 0xe13d432a7dba314
 def fp_C09 : Nat := 0x56ded01e9bd4db7
 def fp_C10 : Nat := 0xd0e160935a1ccbd
@@ -25,7 +25,7 @@ def fp_C14 : Nat := 0xb0d5d72ac3c7e28
 def fp_C15 : Nat := 0x6eca37d7b9f865c
 def fp_C16 : Nat := 0xbfdf48c6b3a0599
 def fp_C17 : Nat := 0xcb05b91cb0198af
-def fp_C18 : Nat := 0x48560da9956e7f4
+def fp_C18 : Nat := 0x5c9e1123707ee57
 def fp_C19 : Nat := 0x97c3f4782fae3e8
 def fp_C20 : Nat := 0xb525623edb944d7
 
